@@ -26,6 +26,26 @@ var c07Pool = []Cfg{
 	{Origins: SS("https://shared.example", "https://*.b.example:*"), Credentialed: true, Methods: SS("*"), RequestHeaders: SS("X-B", "Authorization"), Status: 200, PNA: true, ResponseHeaders: SS("X-RB")},
 	{Origins: SS("*"), Methods: SS("DELETE", "PATCH"), RequestHeaders: SS("*"), MaxAge: -1, Status: 202, ResponseHeaders: SS("*")},
 	{Origins: SS("https://shared.example"), Credentialed: true, RequestHeaders: SS("*"), MaxAge: 600, Status: 299, PNANoCORS: true},
+	// a large configuration (behaviour that depends on size thresholds; a Config() call on it takes long enough for a Reconfigure to land inside)
+	{Origins: c07ManyOrigins(300), Methods: SS("PUT", "QUERY"), RequestHeaders: c07ManyNames(40), MaxAge: 7, Status: 201, ResponseHeaders: c07ManyNames(30)},
+}
+
+const c07NCfg = 5 // configurations 1..5 of c07Pool
+
+func c07ManyOrigins(n int) []Str {
+	out := SS("https://shared.example", "https://a.example")
+	for i := 0; i < n; i++ {
+		out = append(out, Str(fmt.Sprintf("https://h%d.big%d.example:%d", i, i%7, 8000+i%50)))
+	}
+	return out
+}
+
+func c07ManyNames(n int) []Str {
+	var out []Str
+	for i := 0; i < n; i++ {
+		out = append(out, Str(fmt.Sprintf("X-Big-%d", i)))
+	}
+	return out
 }
 
 var c07Invalid = Cfg{Origins: SS("https://shared.example", "https://shared.example/"), Methods: SS("PUT"), MaxAge: 99}
@@ -133,7 +153,7 @@ var c07Points = []string{"header#1", "header#1", "header#1", "header#2", "header
 func genCOp(t *rapid.T) COp {
 	switch k := uniform(t, "opkind", 100); {
 	case k < 40:
-		return COp{Kind: "reconf", Cfg: intIn(t, "cfg", 1, 4)}
+		return COp{Kind: "reconf", Cfg: intIn(t, "cfg", 1, c07NCfg)}
 	case k < 50:
 		return COp{Kind: "reconf_nil"}
 	case k < 58:
@@ -147,7 +167,7 @@ func genCOp(t *rapid.T) COp {
 
 func c07Gen(t *rapid.T) C07Case {
 	c := C07Case{Req: uniform(t, "req", len(c07Requests)), Plan: map[string][]COp{}}
-	c.Start.Cfg = uniform(t, "startcfg", 5)
+	c.Start.Cfg = uniform(t, "startcfg", c07NCfg+1)
 	if c.Start.Cfg != 0 {
 		c.Start.Debug = chance(t, "startdebug", 50)
 	}
@@ -216,7 +236,7 @@ type cfgObs struct {
 }
 
 func c07Check(c C07Case, rec *Recorder) *Disc {
-	if c.Req < 0 || c.Req >= len(c07Requests) || c.Start.Cfg < 0 || c.Start.Cfg > 4 {
+	if c.Req < 0 || c.Req >= len(c07Requests) || c.Start.Cfg < 0 || c.Start.Cfg > c07NCfg {
 		return nil
 	}
 	s0 := dbgState{cfg: c.Start.Cfg, debug: c.Start.Debug && c.Start.Cfg != 0}
@@ -316,7 +336,7 @@ func planKeys(p map[string][]COp) []string {
 
 func TestC07(t *testing.T) {
 	Prop[C07Case]{ID: "C07", Part: "schedule", Gen: c07Gen, Check: c07Check,
-		Rule: "(a) owned schedule: start state in {passthrough, 4 configurations differing in every observable aspect} x debug, one of 14 requests (succeeding/failing preflights, actual, non-CORS) and an injection plan: at 1-3 hand-over points " +
+		Rule: "(a) owned schedule: start state in {passthrough, 5 configurations differing in every observable aspect, one of them with 300 origin patterns} x debug, one of 14 requests (succeeding/failing preflights, actual, non-CORS) and an injection plan: at 1-3 hand-over points " +
 			"(k-th ResponseWriter.Header() call, WriteHeader, Write, entry of the wrapped handler) 1-4 operations from {Reconfigure(cfg), Reconfigure(nil), Reconfigure(invalid), SetDebug(b), Config()} run to completion on another goroutine. " +
 			"Oracle: the response equals the response of a FRESH middleware in one single (configuration, debug) state that was current between request start and end; every injected Config() equals the normal form of the state current at that moment; the final state matches the model, and the 14 requests served afterwards are all answered by the final state alone. " +
 			"non-trivial = the candidate states answer the request differently and at least two operations ran or one ran after the first hand-over; distinct by (start, request, plan).",
@@ -458,6 +478,21 @@ func c07StressCheck(c C07Stress, rec *Recorder) *Disc {
 	}
 	stop.Store(true)
 	wg.Wait()
+	// quiescence: only the final state is current now
+	if first == nil {
+		final := states[len(states)-1]
+		if i := int(completed.Load()); i < len(c.Ops) {
+			final = states[i]
+		}
+		if got := cfgJSON(m.Config()); got != refCfg[final] {
+			first = discf("stress: after all %d operations have completed and every reader has stopped, Config() returns %s; the final state %s has normal form %s", len(c.Ops), got, final, refCfg[final])
+		}
+		for ri, r := range c07Requests {
+			if got := Do(m.Wrap, r, nil).Sig(); first == nil && got != ref[key{final, ri}] {
+				first = discf("stress: after all %d operations have completed and every reader has stopped, {%s} is answered %s; the final state %s answers %s", len(c.Ops), r.Brief(), abbrev(got, 400), final, abbrev(ref[key{final, ri}], 400))
+			}
+		}
+	}
 	rec.Eval(int(nreq.Load()))
 	rec.ClassN("concurrent-observations", int(nreq.Load()))
 	rec.NonTrivialHash(h64(fmt.Sprintf("%+v", c)))
@@ -466,8 +501,8 @@ func c07StressCheck(c C07Stress, rec *Recorder) *Disc {
 
 func TestC07Stress(t *testing.T) {
 	Prop[C07Stress]{ID: "C07", Part: "stress", Gen: c07StressGen, Check: c07StressCheck,
-		Rule: "(b) stress under the Go race detector: one writer executes a drawn sequence of 200-2000 operations (Reconfigure to one of 4 configurations / nil / invalid, SetDebug, Config) publishing begun/completed counters; 8-32 reader goroutines issue the 14 requests and Config() calls, " +
-			"reading 'completed' before and 'begun' after each call; the observation must be the precomputed answer of a state whose index lies in that window. Any data race reported by the detector fails the run. " +
+		Rule: "(b) stress under the Go race detector: one writer executes a drawn sequence of 200-2000 operations (Reconfigure to one of 5 configurations (one of them with 300 origin patterns) / nil / invalid, SetDebug, Config) publishing begun/completed counters; 8-32 reader goroutines issue the 14 requests and Config() calls, " +
+			"reading 'completed' before and 'begun' after each call; the observation must be the precomputed answer of a state whose index lies in that window; once the writer and all readers have stopped, Config() and the 14 requests are answered by the final state. Any data race reported by the detector fails the run. " +
 			"evaluations = concurrent observations checked; non-trivial = every drawn operation sequence (each is run against live readers); distinct by sequence.",
 		Assumptions: []string{"schedule-dependent: a failure is reported with the operation history and the offending observation; it may not reproduce on replay"}}.Run(t)
 }
@@ -490,7 +525,7 @@ func (c C07Writers) Brief() any {
 func genWriterOp(t *rapid.T) COp {
 	switch k := uniform(t, "wop", 100); {
 	case k < 45:
-		return COp{Kind: "reconf", Cfg: intIn(t, "cfg", 1, 4)}
+		return COp{Kind: "reconf", Cfg: intIn(t, "cfg", 1, c07NCfg)}
 	case k < 55:
 		return COp{Kind: "reconf_nil"}
 	case k < 60:
@@ -507,7 +542,7 @@ func c07WritersGen(t *rapid.T) C07Writers {
 		a, b := genWriterOp(t), genWriterOp(t)
 		// the interesting pairs mix a configuration change with a debug change
 		if chance(t, "mixed", 60) {
-			a = COp{Kind: "reconf", Cfg: intIn(t, "cfgm", 1, 4)}
+			a = COp{Kind: "reconf", Cfg: intIn(t, "cfgm", 1, c07NCfg)}
 			if chance(t, "nilm", 20) {
 				a = COp{Kind: "reconf_nil"}
 			}
@@ -515,8 +550,8 @@ func c07WritersGen(t *rapid.T) C07Writers {
 		}
 		if chance(t, "twocfg", 25) {
 			// two configuration changes at once, one of them often to passthrough
-			a = COp{Kind: "reconf", Cfg: intIn(t, "cfga", 1, 4)}
-			b = COp{Kind: "reconf", Cfg: intIn(t, "cfgb", 1, 4)}
+			a = COp{Kind: "reconf", Cfg: intIn(t, "cfga", 1, c07NCfg)}
+			b = COp{Kind: "reconf", Cfg: intIn(t, "cfgb", 1, c07NCfg)}
 			if chance(t, "nila", 60) {
 				a = COp{Kind: "reconf_nil"}
 			}
@@ -655,7 +690,7 @@ func c07WritersCheck(c C07Writers, rec *Recorder) *Disc {
 
 func TestC07Writers(t *testing.T) {
 	Prop[C07Writers]{ID: "C07", Part: "writers", Gen: c07WritersGen, Check: c07WritersCheck,
-		Rule: "(c) two concurrent writers and three concurrent readers: 300-3000 rounds; in each round two calls (Reconfigure to one of 4 configurations / nil / invalid, SetDebug; 60% of rounds pair a configuration change with a debug change) are released at the same instant on two goroutines; " +
+		Rule: "(c) two concurrent writers and three concurrent readers: 300-3000 rounds; in each round two calls (Reconfigure to one of 5 configurations (one of them with 300 origin patterns) / nil / invalid, SetDebug; 60% of rounds pair a configuration change with a debug change) are released at the same instant on two goroutines; " +
 			"a serial order of the two calls must explain BOTH the final state (Config() and the answers to the 14 requests equal those of a fresh middleware in the state that order ends in) AND every observation the readers made meanwhile (each must be one of the three states that order passes through); lost updates and transient never-current states are thereby visible. Runs under the race detector. " +
 			"evaluations = rounds; non-trivial = every drawn round sequence; distinct by sequence.",
 		Assumptions: []string{"schedule-dependent like the stress part: a lost update needs the two calls to overlap"}}.Run(t)
